@@ -47,27 +47,32 @@ Definition zone_of_name (t : bytes) : option (option Z) := assoc t tz_ref_expand
 (* ---- numeric UTC offsets: sign is '+', '-' or U+2212 MINUS SIGN *)
 Definition split_sign (t : bytes) : option (bool * bytes) :=
   match t with
-  | 43 :: r => Some (false, r)
-  | 45 :: r => Some (true, r)
-  | 226 :: 136 :: 146 :: r => Some (true, r)
-  | _ => None
+  | a :: r =>
+      if a =? 43 then Some (false, r)
+      else if a =? 45 then Some (true, r)
+      else match r with
+           | b :: c :: r' => if (a =? 226) && (b =? 136) && (c =? 146) then Some (true, r') else None
+           | _ => None
+           end
+  | [] => None
   end.
 Definition mk_off (neg : bool) (hh mm : Z) : option Z :=
   if (hh <=? 23)%Z && (mm <=? 59)%Z then
     let s := (hh * 3600 + mm * 60)%Z in Some (if neg then (- s)%Z else s)
   else None.
+Definition val2 (a b : N) : Z := Z.of_N ((a - 48) * 10 + (b - 48)).
 Definition off_of_text (k : dtfs_tz) (t : bytes) : option Z :=
   match split_sign t with
   | None => None
   | Some (neg, r) =>
-    match k with
-    | Tz_z => match digits_n 2 (firstn 2 r), digits_n 2 (skipn 2 r) with
-              | Some hh, Some mm => mk_off neg hh mm | _, _ => None end
-    | Tz_zc => match digits_n 2 (firstn 2 r), skipn 2 r with
-               | Some hh, 58 :: m => match digits_n 2 m with Some mm => mk_off neg hh mm | None => None end
-               | _, _ => None end
-    | Tz_zp => match digits_n 2 r with Some hh => mk_off neg hh 0%Z | None => None end
-    | _ => None
+    match k, r with
+    | Tz_z, [h1; h2; m1; m2] =>
+        if digit h1 && digit h2 && digit m1 && digit m2 then mk_off neg (val2 h1 h2) (val2 m1 m2) else None
+    | Tz_zc, [h1; h2; c; m1; m2] =>
+        if digit h1 && digit h2 && (c =? 58) && digit m1 && digit m2 then mk_off neg (val2 h1 h2) (val2 m1 m2) else None
+    | Tz_zp, [h1; h2] =>
+        if digit h1 && digit h2 then mk_off neg (val2 h1 h2) 0%Z else None
+    | _, _ => None
     end
   end.
 
@@ -100,7 +105,7 @@ Definition rd_month (d : dtfs) (c : caps) : option Z :=
 Definition rd_day (d : dtfs) (c : caps) : option Z :=
   match f_day d, c_day c with
   | D_ed, Some t => match t with
-                    | [32; x] => digits_n 1 [x]
+                    | [a; x] => if a =? 32 then digits_n 1 [x] else digits_1_2 t
                     | _ => digits_1_2 t end
   | _, _ => None
   end.
